@@ -112,6 +112,65 @@ CLAIMED = {
         'be accepted with gaps disallowed, conclude the queried equation and use only merged equations as hypotheses.',
         'Trusted: the naive closure and replayer in props/c17_congc.py (cross-checked against z3 EUF at start).',
         'DESIGN.md §2 C17'),
+    'C05': (
+        'enumerated small goal shapes + Hypothesis goals for each level-0 arithmetic macro, truth decided by an independent '
+        'exact / interval evaluator (vlib/arith.py)',
+        'Exploration. Each of the ten macros the checker evaluates without expansion is invoked through a one-step kernel '
+        'proof on >100000 enumerated and thousands of random goals (the same shape at nat, int and real; zero divisors, '
+        'near-equal constants, irrational constants, foreign types); every returned sequent is evaluated under HOL '
+        'semantics and only a sequent evaluated FALSE is a violation.',
+        'Trusted: vlib/arith.py (exact rationals, quadratic surds, mpmath intervals at 60 digits; self-tested).',
+        'DESIGN.md §2 C05'),
+    'C06': (
+        'Hypothesis goals in the translatable fragment; accepted goals refuted by an independent guard-correct z3 encoding '
+        'whose models are validated by a three-valued HOL evaluator, plus bounded counter-model enumeration',
+        'Exploration. Thousands of goals (about 70% accepted) through z3wrapper.solve, Z3Macro.eval and SymPyMacro; an '
+        'accepted goal with a validated counter-model is a violation (soundness direction only).',
+        'Trusted: vlib/c06_lib.py evaluator (models from z3 are validated by concrete evaluation before they count); '
+        'z3 resource limits make unknown answers inconclusive.',
+        'DESIGN.md §2 C06'),
+    'C10': (
+        'Hypothesis (conversion, term) cases and canonicity pairs; results checked by the kernel, by holpy/ref equality '
+        'of the left side, by eval/proof agreement and by semantic evaluation of both sides',
+        'Exploration. ~8000 conversion cases over the rewriting combinators and the nat/int/real/propositional/function '
+        'normalisers plus ~3000 pairs of rearrangements of one polynomial / member set for canonicity and idempotence.',
+        'Trusted: vlib/arith.py, vlib/model.py, vlib/ref.py and the polynomial expander of vlib/c10_lib.py.',
+        'DESIGN.md §2 C10'),
+    'C11': (
+        'all library items + Hypothesis-generated items (adversarial definitions) judged by a structural conservativity '
+        'judge, an own type checker for extensions, and export/parse round trips',
+        'Exploration. Every non-theorem item and a quarter of the theorem items of the 43 library files (all in thorough) '
+        'plus ~3000 generated items of every kind are parsed in the theory state before them; accepted definitions must '
+        'satisfy the conservativity conditions, all extensions must be well-typed over the extended signature, and '
+        'export_json / get_display must parse back to an equal item.',
+        'Trusted: the judge, signature model and type checker of vlib/c11_lib.py; terms outside the print/parse domain '
+        '(property C07) make a round trip inconclusive.',
+        'DESIGN.md §2 C11'),
+    'C16': (
+        'Hypothesis linear systems (random, planted, Farkas-boundary, slabs) through nine entry points; models checked '
+        'by exact substitution, unsat claims refuted by validated z3 models and bounded brute force, proofs by the kernel',
+        'Exploration. ~23000 systems with <=5 variables and <=8 rows over omega.solve_matrix, OmegaHOL, Simplex, strict '
+        'Simplex, branch_and_bound and the proof-producing wrappers / macros.',
+        'Trusted: exact Fraction substitution; z3 only as a source of candidate models that are validated by substitution.',
+        'DESIGN.md §2 C16'),
+    'C18': (
+        'per-rule templates of correct veriT steps and mechanically derived near misses; accepted steps judged by truth '
+        'tables / an independent z3 encoding with validated counter-models',
+        'Exploration. 150 correct and 450 near-miss instances for each of the 85 registered verit_* macros plus generated '
+        'refutations through ProofReconstruction.validate; an accepted step whose clause is not a consequence of its '
+        'premises (or that drops premise hypotheses) is a violation. Rules with no accepted instance are listed in the '
+        'evidence and not claimed.',
+        'Trusted: the IR, evaluator and z3 encoding of vlib/c18_lib.py (counter-models validated by evaluation).',
+        'DESIGN.md §2 C18'),
+    'C19': (
+        'replay of every recorded calculation step + Hypothesis rule applications, compared numerically by an independent '
+        'Expr -> mpmath evaluator at two precisions and several parameter draws',
+        'Exploration. ~1200 recorded steps of the example files and ~2000 generated rule applications; deriv against '
+        'numeric differentiation, normalize for value and idempotence, interval bounds against sampled values, print/parse '
+        'round trips. A violation needs conclusive numerics at 30 and 50 digits and at two parameter draws.',
+        'Trusted: vlib/c19_lib.py (quadrature with error bounds, limits and sums accepted only when settled); everything '
+        'else is inconclusive.',
+        'DESIGN.md §2 C19'),
 }
 
 NOT_YET = {
